@@ -12,7 +12,7 @@ from .model import Func, Project, UnknownIdiom, walk_no_nested, short
 
 
 class Node:
-    __slots__ = ('id', 'kind', 'ast', 'stmt', 'lineno', 'susp', 'copy')
+    __slots__ = ('id', 'kind', 'ast', 'stmt', 'lineno', 'susp', 'copy', 'flags')
 
     def __init__(self, id, kind, astnode=None, stmt=None, copy=''):
         self.id = id
@@ -22,6 +22,7 @@ class Node:
         self.lineno = getattr(astnode, 'lineno', None) or getattr(stmt, 'lineno', 0)
         self.susp = False
         self.copy = copy  # which finally-copy this node belongs to ('' = primary)
+        self.flags = ''  # valuation of the function's control flags this copy stands for (refine_flags)
 
     def own(self) -> List[ast.AST]:
         """Expressions evaluated by this node itself (not by nested blocks)."""
@@ -430,13 +431,215 @@ class CFG:
         return sum(len(v) for v in self.succ.values())
 
 
-_CFG_CACHE: Dict[Tuple[int, int], CFG] = {}
+_CFG_CACHE: Dict[Tuple[int, int, bool], CFG] = {}
 
 
-def cfg_of(func: Func, project: Project) -> CFG:
-    key = (id(project), id(func.node))
+def _control_flags(fnode) -> List[str]:
+    """Locals that are pure control flags: every binding in the function is
+    `name = True` / `name = False` (a plain Assign with that single target),
+    the name is no parameter, not global/nonlocal, not touched by a nested
+    function, and it occurs in at least one branch test."""
+    params = {a.arg for a in fnode.args.args + fnode.args.kwonlyargs + getattr(fnode.args, 'posonlyargs', [])}
+    if fnode.args.vararg:
+        params.add(fnode.args.vararg.arg)
+    if fnode.args.kwarg:
+        params.add(fnode.args.kwarg.arg)
+    const, other, tested, nested_names = {}, set(), set(), set()
+    for x in walk_no_nested(fnode):
+        if isinstance(x, (ast.FunctionDef, ast.AsyncFunctionDef, ast.Lambda, ast.ClassDef)):
+            for y in ast.walk(x):
+                if isinstance(y, ast.Name):
+                    nested_names.add(y.id)
+            continue
+        if isinstance(x, (ast.Global, ast.Nonlocal)):
+            other.update(x.names)
+        elif isinstance(x, ast.Assign) and len(x.targets) == 1 and isinstance(x.targets[0], ast.Name) \
+                and isinstance(x.value, ast.Constant) and isinstance(x.value.value, bool):
+            const.setdefault(x.targets[0].id, []).append(x)
+        elif isinstance(x, ast.Name) and isinstance(x.ctx, (ast.Store, ast.Del)):
+            other.add(x.id)
+        if isinstance(x, (ast.If, ast.While, ast.IfExp)):
+            for y in ast.walk(x.test):
+                if isinstance(y, ast.Name):
+                    tested.add(y.id)
+    out = []
+    for name, assigns in const.items():
+        # the Store-context Name of the constant assignments themselves was added to `other`: discount them
+        stores = sum(1 for x in walk_no_nested(fnode) if isinstance(x, ast.Name) and x.id == name and isinstance(x.ctx, (ast.Store, ast.Del)))
+        if stores == len(assigns) and name not in params and name not in nested_names and name in tested \
+                and not any(isinstance(x, (ast.Global, ast.Nonlocal)) and name in x.names for x in walk_no_nested(fnode)):
+            out.append(name)
+    return sorted(out)
+
+
+def _decide_test(e, val) -> Optional[bool]:
+    """Truth value of a branch test under a valuation of control flags
+    (name -> True/False), or None when it is not decided by the flags."""
+    if isinstance(e, ast.Name):
+        return val.get(e.id)
+    if isinstance(e, ast.UnaryOp) and isinstance(e.op, ast.Not):
+        r = _decide_test(e.operand, val)
+        return None if r is None else (not r)
+    if isinstance(e, ast.BoolOp):
+        rs = [_decide_test(v, val) for v in e.values]
+        if isinstance(e.op, ast.And):
+            if any(r is False for r in rs):
+                return False
+            return True if all(r is True for r in rs) else None
+        if any(r is True for r in rs):
+            return True
+        return False if all(r is False for r in rs) else None
+    if isinstance(e, ast.Compare) and len(e.ops) == 1 and isinstance(e.ops[0], (ast.Is, ast.IsNot, ast.Eq, ast.NotEq)) \
+            and isinstance(e.left, ast.Name) and isinstance(e.comparators[0], ast.Constant) and isinstance(e.comparators[0].value, bool):
+        v = val.get(e.left.id)
+        if v is None:
+            return None
+        same = (v is e.comparators[0].value)
+        return same if isinstance(e.ops[0], (ast.Is, ast.Eq)) else (not same)
+    return None
+
+
+def refine_flags(cfg: CFG) -> CFG:
+    """Path-sensitivity for pure control flags.  A refactoring that replaces
+    `try/else`, `for/else` or an early return by `ok = False ... ok = True ...
+    if ok:` creates paths in the plain CFG that no execution takes (handler
+    taken, then the `if ok:` body).  The refined graph has one copy of a node
+    per reachable valuation of the function's control flags and omits branch
+    edges the valuation contradicts; everything else (kinds, labels, AST
+    ownership, exits) is unchanged, so every path of the refined graph is a
+    path of the original one and every feasible execution is still a path.
+    Returned unchanged when the function has no control flag or when no edge
+    is ever contradicted."""
+    fnode = cfg.func.node
+    flags = _control_flags(fnode) if isinstance(fnode, (ast.FunctionDef, ast.AsyncFunctionDef)) else []
+    if not flags:
+        return cfg
+    fset = set(flags)
+
+    def assigned(node):
+        a = node.ast
+        if node.kind == 'stmt' and isinstance(a, ast.Assign) and len(a.targets) == 1 and isinstance(a.targets[0], ast.Name) \
+                and a.targets[0].id in fset and isinstance(a.value, ast.Constant) and isinstance(a.value.value, bool):
+            return a.targets[0].id, a.value.value
+        return None
+
+    init = tuple((f, None) for f in flags)
+    ids = {}
+    order = []
+
+    # liveness of each flag at node entry (backward may-analysis): a flag that no later test can read before it is
+    # re-assigned carries no information, so copies that differ only in dead flags are merged (keeps the split local
+    # to the region between the assignment and the last test)
+    def reads(node):
+        if node.kind == 'stmt' and assigned(node) is not None:
+            return set()
+        return {x.id for x in node.walk() if isinstance(x, ast.Name) and x.id in fset and isinstance(x.ctx, ast.Load)}
+
+    live = {n.id: set() for n in cfg.live_nodes()}
+    changed = True
+    while changed:
+        changed = False
+        for n in cfg.live_nodes():
+            out = set()
+            for (y, _l) in cfg.succ[n.id]:
+                out |= live.get(y, set())
+            asg_ = assigned(n)
+            if asg_ is not None:
+                out = out - {asg_[0]}
+            new_ = out | reads(n)
+            if new_ != live[n.id]:
+                live[n.id] = new_
+                changed = True
+
+    def get(nid, val):
+        if nid in (cfg.exit, cfg.xexit):
+            val = init  # one exit / xexit node
+        else:
+            lv = live.get(nid, set())
+            val = tuple((f, (v if f in lv else None)) for f, v in val)
+        k = (nid, val)
+        if k not in ids:
+            ids[k] = len(order)
+            order.append(k)
+        return ids[k]
+
+    get(cfg.entry, init)
+    edges = []
+    pruned = 0
+    i = 0
+    while i < len(order):
+        nid, val = order[i]
+        src = i
+        i += 1
+        node = cfg.node(nid)
+        vmap = dict(val)
+        asg = assigned(node)
+        decided = _decide_test(node.ast, vmap) if node.kind == 'test' and node.ast is not None else None
+        for (y, l) in cfg.succ[nid]:
+            if decided is not None and l in ('T', 'F') and (l == 'T') != decided:
+                pruned += 1
+                continue
+            out = vmap
+            if asg is not None and l != 'exc':
+                out = dict(vmap)
+                out[asg[0]] = asg[1]
+            edges.append((src, get(y, tuple((f, out[f]) for f in flags)), l))
+    if not pruned:
+        return cfg
+    new = CFG.__new__(CFG)
+    new.func = cfg.func
+    new.project = cfg.project
+    new.nodes = []
+    new.succ = {}
+    new.pred = {}
+    new.by_ast = {}
+    keys_of = {}
+    for k, lst in cfg.by_ast.items():
+        for nid in lst:
+            keys_of.setdefault(nid, []).append(k)
+    for idx, (nid, val) in enumerate(order):
+        o = cfg.node(nid)
+        tag = ','.join('%s=%s' % (f, {True: 'T', False: 'F', None: '?'}[v]) for f, v in val if v is not None)
+        n = Node(idx, o.kind, o.ast, o.stmt, o.copy)
+        n.flags = tag
+        n.lineno = o.lineno
+        n.susp = o.susp
+        new.nodes.append(n)
+        new.succ[idx] = []
+        new.pred[idx] = []
+        for k in keys_of.get(nid, []):
+            new.by_ast.setdefault(k, []).append(idx)
+    for (a, b, l) in edges:
+        if (b, l) not in new.succ[a]:
+            new.succ[a].append((b, l))
+            new.pred[b].append((a, l))
+    new.entry = ids[(cfg.entry, init)]
+    new.exit = get(cfg.exit, init) if (cfg.exit, init) in ids else None
+    new.xexit = get(cfg.xexit, init) if (cfg.xexit, init) in ids else None
+    # an exit that became unreachable still needs a node id (queries compare against it)
+    for attr, onid in (('exit', cfg.exit), ('xexit', cfg.xexit)):
+        if getattr(new, attr) is None or getattr(new, attr) >= len(new.nodes):
+            o = cfg.node(onid)
+            idx = len(new.nodes)
+            new.nodes.append(Node(idx, o.kind, o.ast, o.stmt, o.copy))
+            new.succ[idx] = []
+            new.pred[idx] = []
+            setattr(new, attr, idx)
+    new._copy = ''
+    new._handler_stack = []
+    new.flag_refined = flags
+    new._prune()
+    return new
+
+
+def cfg_of(func: Func, project: Project, refined: bool = False) -> CFG:
+    """The statement CFG of a function.  With refined=True the graph is made
+    path-sensitive for the function's pure control flags (refine_flags): opt-in,
+    because a refined graph may hold several copies of a node, which rules that
+    look for "the" node of a statement do not expect."""
+    key = (id(project), id(func.node), bool(refined))
     c = _CFG_CACHE.get(key)
     if c is None:
-        c = CFG(func, project)
+        c = CFG(func, project) if not refined else refine_flags(cfg_of(func, project))
         _CFG_CACHE[key] = c
     return c
